@@ -88,5 +88,9 @@ def run(ctx):
         ctx.ob(o.rule, o.where, o.ok, o.what, key=o.key, loc=o.loc, detail=o.detail)
     ctx.floor("C15.R4", 3)
 
+    if ctx.tier == "thorough":
+        from .. import interval
+        interval.rotation_obligations(ctx, "C15.R5")
+
     # positive control: same-direction rotation on both sides must be reported by the 'not identical' obligation
     ctx.control("C15.R2", a_neg != a)
